@@ -32,6 +32,8 @@ pub fn function_table() -> Vec<(&'static str, F, &'static str)> {
         ("FromUnixtime", F::FromUnixtime, "i"), ("UnixTimestamp", F::UnixTimestamp, "d"), ("DateFormat", F::DateFormat, "dt"), ("Quarter", F::Quarter, "d"),
         ("DatetimeDiff", F::DatetimeDiff, "ddt"), ("Date", F::Date, "d"), ("Coalesce", F::Coalesce, "xx"), ("Sign", F::Sign, "n"), ("Like", F::Like, "tt"), ("Ilike", F::Ilike, "tt"),
         ("Choose", F::Choose, "ix"), ("IsNull", F::IsNull, "x"), ("IsBool", F::IsBool, "bb"),
+        // x IN l with a list that is a column, not a literal: its type says which elements it may hold and how many, not which it does hold
+        ("InList", F::InList, "iL"),
     ]
 }
 
@@ -60,6 +62,10 @@ fn gen_arg_ty(rng: &mut Rng, cat: char, extremes: bool) -> J {
         'd' => match rng.below(3) { 0 => { let n = 1 + rng.below(2); json!(["date", (0..n).map(|_| { let a = rng.range(-40000, 40000); let b = a + rng.range(0, 800); [a, b] }).collect::<Vec<_>>()]) }
                                     1 => { let n = 1 + rng.below(2); json!(["datetime", (0..n).map(|_| { let a = rng.range(-40000, 40000) * 86400 + rng.range(0, 86399); let b = a + rng.range(0, 80000000); [a, b] }).collect::<Vec<_>>()]) }
                                     _ => { let a = rng.range(0, 86399); let b = rng.range(a, 86399); json!(["time", [[a, b]]]) } },
+        // a list of small integers: a finite element set or an interval, and a size range around the number of possible elements
+        'L' => { let n = 1 + rng.below(3) as i64; let base = rng.range(-2, 3);
+                 let elem = if rng.chance(2, 3) { json!(["int", (0..n).map(|i| [base + i, base + i]).collect::<Vec<_>>()]) } else { json!(["int", [[base, base + n - 1]]]) };
+                 let lo = (n - rng.range(0, 1)).max(0); return json!(["list", elem, [[lo, lo + rng.range(0, 2)]]]); }
         'c' => match rng.below(4) { 0 => gen_int_ty(rng, extremes), 1 => gen_float_ty(rng, extremes), 2 => gen_text_ty2(rng), _ => gen_arg_ty(rng, 'd', extremes) },
         _ => gen_scalar_ty(rng, extremes),
     };
@@ -87,6 +93,8 @@ pub fn gen(rng: &mut Rng, k: usize, tier: &str) -> J {
                 // the two branches of case / coalesce mostly share a type
                 if c == 'x' && !tys.is_empty() && rng.chance(2, 3) { let last = tys.last().unwrap().clone(); tys.push(gen_related_col(rng, &last, extremes)); } else { tys.push(gen_arg_ty(rng, c, extremes)); }
             }
+            // x IN l: mostly an x whose type lies inside the list's element type
+            if name == "InList" && rng.chance(3, 4) { let ivs: Vec<J> = tys[1][1][1].as_array().unwrap().clone(); let keep: Vec<J> = ivs.iter().filter(|_| rng.chance(2, 3)).cloned().collect(); tys[0] = json!(["int", if keep.is_empty() { ivs } else { keep }]); }
             let vals: Vec<J> = tys.iter().map(|t| gen_val_in(rng, t).unwrap_or(json!(["none"]))).collect();
             json!({"kind": "fn", "f": name, "tys": tys, "vals": vals})
         }
